@@ -177,20 +177,21 @@ def same_outcome(a, b):
 
 
 def restrict(o, keys):
-    """o restricted to the dotted keys (a list-indexed key keeps the whole list)."""
+    """o restricted to the dotted keys (a key naming a section keeps the whole section, a
+    list-indexed key keeps the whole list) -- mirrors Restrict of spec/Values.tla."""
     out = {}
-    for k in keys:
+    for k in sorted(keys, key=lambda k: -k.count(".")):  # longer keys first, whole sections win
         segs = k.split(".")
         src, dst = o, out
         for i, seg in enumerate(segs):
             if not isinstance(src, dict) or seg not in src:
                 break
-            last = i == len(segs) - 1
-            if last or not isinstance(src[seg], dict):
-                if not (isinstance(dst.get(seg), dict) and isinstance(src[seg], dict)):
-                    dst[seg] = copy.deepcopy(src[seg])
+            if i == len(segs) - 1 or not isinstance(src[seg], dict):
+                dst[seg] = copy.deepcopy(src[seg])
                 break
-            dst = dst.setdefault(seg, {})
+            if not isinstance(dst.get(seg), dict):
+                dst[seg] = {}
+            dst = dst[seg]
             src = src[seg]
     return out
 
